@@ -473,7 +473,7 @@ Definition try_recover_inner (m : mgr) (d : dev) : dev * res (option updater) :=
                           match load_used m p moff (List.seq 0 (N.to_nat ml)) (fun _ => false) d4 with
                           | (d5, None) => (d5, RErr (last_err d5))
                           | (d5, Some us) =>
-                              let ndone := count_true dn (N.to_nat MAX_SEGMENTS) in
+                              let ndone := count_true dn (N.to_nat cnt) in          (* only the first [cnt] status bytes were loaded *)
                               let complete := Nat.eqb ndone (N.to_nat nn) in
                               let us' := if complete then (fun _ => false) else us in
                               let any_used := existsb us' (List.seq 0 (N.to_nat ml)) in
@@ -499,7 +499,8 @@ Definition try_recover (m : mgr) (d : dev) : dev * res (option updater) :=
   end.
 
 (* counters *)
-Definition received (u : updater) : nat := (count_true (done (u_rd u)) (N.to_nat MAX_SEGMENTS) + count_true (used (u_rd u)) 2048)%nat.
+(* done bits exist below n, used bits below the capacity (all others are false in every state the model builds) *)
+Definition received (u : updater) : nat := (count_true (done (u_rd u)) (n (u_rd u)) + count_true (used (u_rd u)) (u_maxl u))%nat.
 Definition total (u : updater) : nat := n (u_rd u).
 
 (* ------------------------------------------------------------------ power loss: the flash after a crash is the
